@@ -56,6 +56,27 @@ func buildPlan(id string, pinned map[string]string, tier string) *Plan {
 			"twisted-Edwards companions: not under contract", "numeric value of bCurveCoeff / bTwistCurveCoeff is not checked at the ring layer"}
 		p.Note = "Every branch of every Jacobian and extended-Jacobian addition, mixed addition, doubling, negation and conversion under contract returns a representative of the point prescribed by the chord-and-tangent law, for every representative of the inputs (all projective scalings), with the branch taken determined by the code's own zero/equality tests."
 		return p
+	case "C16":
+		p := &Plan{ID: id}
+		p.Units = append(p.Units, Unit{Pkg: "./field/koalabear/vortex", Tags: "", Groups: []string{"merkle"}})
+		p.Trusted = []string{"CompressPoseidon2 is a deterministic function of its arguments (assumed contract)", "i >> n == 0 iff 0 <= i < 2^n (arithmetic fact used to read the index-range clause)"}
+		p.NotCovered = []string{"BuildMerkleTree, MerkleTree.Open: not under contract (nested slices, parallel.Execute)", "accumulator/merkletree (RFC 6962 shaped tree): not under contract"}
+		p.Note = "MerkleProof.Verify accepts iff fold(leaf, proof, i) == root and 0 <= i < 2^len(proof); tamper rejection follows with the compression function uninterpreted."
+		return p
+	case "C14":
+		p := &Plan{ID: id}
+		for _, pk := range mimcPkgs("/repo") {
+			p.Units = append(p.Units, Unit{Pkg: pk, Tags: "", Groups: []string{"mimc"}})
+		}
+		for _, pk := range poseidonPkgs("/repo") {
+			p.Units = append(p.Units, Unit{Pkg: pk, Tags: "", Groups: []string{"poseidon2"}})
+		}
+		p.Trusted = []string{"ring layer over fr.Element (C01 contracts)", "published Poseidon2 matrices for widths 2 and 3 and S-box degree per curve", "documented MiMC instances: exponent and number of rounds per curve (gcv/gen_tower.go mimcParams)",
+			"the round-constant table is a fixed array (its derivation from Keccak is not under contract)"}
+		p.NotCovered = []string{"Poseidon2 permutations and wrappers, ring-SIS, Merkle-Damgard wrapper, hash registry: not under contract",
+			"MiMC round-constant derivation (sha3): not under contract", "digest.Reset / WriteString / State: not under contract"}
+		p.Note = "MiMC: encrypt is the documented number of rounds of x -> (x + k + c_i)^d followed by + k (recursive specification, loop invariant); checksum is the Miyaguchi-Preneel fold over the absorbed blocks; Write never slices its input beyond len(p) (strict slice obligations), accepts only whole blocks (or one short left-padded block) and reports the bytes it consumed; SetState and Sum flush the pending blocks."
+		return p
 	case "C06":
 		p := &Plan{ID: id}
 		for _, t := range towers {
